@@ -31,6 +31,10 @@ claim("C16",
   "Static necessary conditions of string-literal decoding: push-back depth vs. bufio's one-level UnreadRune at every unread call site, the escape table and IsHex folded over every ASCII rune (constant propagation through getEscapedRune/IsHex), HexToAscii base, sibling comparison of the two quote-style branches of the lexer (AST, modulo state constants and quote), and read() returning exactly the rune of one ReadRune call.",
   "Does not decide the lexer state machine as a whole; trusts bufio's documented behaviour.",
   "typestate on push-back depth + constant folding of the escape tables + sibling-branch comparison", "DESIGN.md section 5 C16")
+claim("C08",
+  "Static analysis of necessary conditions of totality, each holding for all source texts at once: end-of-input constant propagation through every lexer loop that reads input (no feasible cycle once read() returns 0), an inventory of every explicit panic reachable from Compile discharged by enum/type-switch exhaustiveness or a frozen trusted table, nil-success returns of parse functions traced to their call sites (a nil node with a nil error must be tested before conversion/dereference), dominance of `i < len(s)` over every index into the regex pattern string and the filtered expression-token slice with call-site obligations for entry-parameter indexes, TokenType.PP exhaustive, error constructors never get nil tokens, generator/checker type switches end in an error.",
+  "Axioms A1-A3 (token list ends in EOF, skipping never passes EOF, bufio EOF is sticky); does not bound stack depth or the size of unrolled loops; the token parser's sentinel discipline is only covered through R3.",
+  "sentinel constant propagation on the SSA CFG + panic inventory over the call graph + guard dominance + nil-flow analysis", "DESIGN.md section 5 C08")
 for pid in ["C01","C02","C03","C04","C05","C06","C07","C08","C09","C10","C11","C12","C13","C14","C15","C16","C17","C18","C19","C20"]:
     if pid not in CLAIMED:
         NA[pid] = "check under construction in this session (rules designed in DESIGN.md section 5, not yet implemented in the checker); not claimed until its rules run"
